@@ -47,10 +47,13 @@ class _FieldOfDressed:
                 # as long as it is what the reference in the buffer denotes
                 # (the container may be a copy made in another buffer)
                 target = getattr(container._xobject, self.name)
+                # (an object and its first nested part share an offset: the
+                # class tells them apart)
                 if (
                     target is None
                     or target._buffer is not dressed._xobject._buffer
                     or target._offset != dressed._xobject._offset
+                    or type(target) is not type(dressed._xobject)
                 ):
                     return target
             return dressed
@@ -73,13 +76,12 @@ class _FieldOfDressed:
             # Copy xobject data from value inside self._xobject
             # (unless same memory area or Ref and same buffer,
             #  in the latter case reference mechanism is used)
+            current = getattr(container._xobject, self.name)
             if not (
                 container._xobject._buffer is value._xobject._buffer
-                and (
-                    getattr(container._xobject, self.name) is not None
-                    and getattr(container._xobject, self.name)._offset
-                    == value._xobject._offset
-                )
+                and current is not None
+                and current._offset == value._xobject._offset
+                and type(current) is type(value._xobject)
             ):
                 setattr(container._xobject, self.name, value._xobject)
 
